@@ -97,12 +97,12 @@ type Link struct {
 }
 
 type Rule struct {
-	ID     int    `json:"id"`
-	Phase  int    `json:"phase"`
-	Marker string `json:"marker"`
-	Links  []Link `json:"links"`
-	Status int    `json:"status"`
-	Sev    int    `json:"sev"`
+	ID     int      `json:"id"`
+	Phase  int      `json:"phase"`
+	Marker string   `json:"marker"`
+	Links  []Link   `json:"links"`
+	Status int      `json:"status"`
+	Sev    int      `json:"sev"`
 	Tags   []string `json:"tags,omitempty"`
 	Msg    string   `json:"msg,omitempty"`
 	Log    string   `json:"log,omitempty"` // "", "log", "nolog", "auditlog", ...
@@ -177,9 +177,15 @@ func (o *Outcome) Key(opts ProjOpts) string {
 			if opts.FoldMDKeys {
 				k = strings.ToLower(k)
 			}
+			if i < len(o.Fired) && opts.BlankKeys[o.Fired[i]] {
+				k = ""
+			}
 			ss[j] = fmt.Sprintf("%s|%q|%q", d.Var, k, string(d.Val))
 		}
 		sort.Strings(ss)
+		if opts.DedupMD {
+			ss = dedup(ss)
+		}
 		fmt.Fprintf(&sb, "md%d=%v;", i, ss)
 	}
 	fmt.Fprintf(&sb, "intr=%d/%s/%d/%q;", o.Intr.ID, o.Intr.Action, o.Intr.Status, string(o.Intr.Data))
@@ -200,7 +206,9 @@ func (o *Outcome) Key(opts ProjOpts) string {
 
 // ProjOpts selects what part of the outcome a family compares.
 type ProjOpts struct {
-	FoldMDKeys bool // compare match-data keys case-insensitively
+	FoldMDKeys bool         // compare match-data keys case-insensitively
+	DedupMD    bool         // compare match data as sets (multiMatch: a transformation may over-report "changed")
+	BlankKeys  map[int]bool // rule ids whose match-data keys are not compared (count targets: the key text is unspecified)
 	NoTX       bool
 	NoDetIntr  bool
 }
@@ -282,4 +290,33 @@ func (s *Scen) Features() []string {
 	}
 	sort.Strings(out)
 	return out
+}
+
+func dedup(ss []string) []string {
+	var out []string
+	for i, x := range ss {
+		if i == 0 || x != ss[i-1] {
+			out = append(out, x)
+		}
+	}
+	return out
+}
+
+// ProjFor derives the projection a scenario needs from its features.
+func ProjFor(s *Scen, base ProjOpts) ProjOpts {
+	p := base
+	p.BlankKeys = map[int]bool{}
+	for _, r := range s.Rules {
+		for _, l := range r.Links {
+			if l.MM {
+				p.DedupMD = true
+			}
+			for _, t := range l.Targets {
+				if t.Count {
+					p.BlankKeys[r.ID] = true
+				}
+			}
+		}
+	}
+	return p
 }
